@@ -201,7 +201,8 @@ def make_case(r, op, max_cells, scale=None):
         keys = list(dict.fromkeys(tuple(c) for c in cl))
         structure = None
     else:
-        kw = {'damping': r.choice([0.5, 0.5, 0.5, 0.9, 0.1, 0.05])} if op == 'hps' else {}
+        # the `damping` argument belongs to the convex oracle; generalised propagation is documented to ignore it (fixed 1/2), so any value is legal there
+        kw = {'damping': r.choice([0.5, 0.5, 0.5, 0.9, 0.1, 0.05])} if op == 'hps' else ({'damping': r.choice([0.0, 0.1, 0.9, 1.0])} if r.random() < 0.3 else {})
         obj = rggen.build_rg(dom, cl, total, convex=(op == 'hps'), minimal=True if r.random() < 0.85 else False, **kw)
         keys = list(obj.cliques)
         structure = rggen.slim_rg(rggen.export_rg(obj))
